@@ -736,3 +736,43 @@ pub fn union_check<T>(r: &mut Rep, o: &UnionOps<T>, singles_limit: usize, pairs_
         }
     }
 }
+
+// ------------------------------------------------------------------------------------------
+// C04: payloads with niches, neighbour bytes
+
+pub static S1: u8 = 1;
+pub static S200: u8 = 200;
+#[derive(Clone, Copy, Debug, PartialEq, Eq, PartialOrd, Ord)]
+pub enum Inner { A, B, C }
+pub fn nz(n: u8) -> std::num::NonZeroU8 { std::num::NonZeroU8::new(n).unwrap() }
+
+#[repr(C)]
+pub struct Wrap<T> {
+    pub pre: [u8; 16],
+    pub v: T,
+    pub post: [u8; 16],
+}
+
+/// the comparison result must not depend on where the operands live or on what lies next to them
+pub fn neighbour_pairs<T: Clone + fmt::Debug>(
+    r: &mut Rep,
+    vs: &[T],
+    pcmp: &dyn Fn(&T, &T) -> Option<Ordering>,
+    model: &dyn Fn(&T, &T) -> Option<Ordering>,
+) {
+    for a in vs {
+        for b in vs {
+            let want = model(a, b);
+            for (fa, fb) in [(0x00u8, 0xFFu8), (0xFF, 0x00), (0x55, 0x55), (0xFF, 0xFF), (0x00, 0x00)] {
+                let wa = Wrap { pre: [fa; 16], v: a.clone(), post: [fa; 16] };
+                let wb = Wrap { pre: [fb; 16], v: b.clone(), post: [fb; 16] };
+                let got = pcmp(&wa.v, &wb.v);
+                r.ck(got == want, 16 + ord_code(want), &|| format!("partial_cmp({:?}, {:?}) = {:?} next to bytes {:#x}/{:#x}, model {:?}", a, b, got, fa, fb, want));
+                std::hint::black_box((&wa.pre, &wa.post, &wb.pre, &wb.post));
+            }
+            let (ba, bb) = (Box::new(a.clone()), Box::new(b.clone()));
+            let got = pcmp(&ba, &bb);
+            r.ck(got == want, 20, &|| format!("partial_cmp({:?}, {:?}) = {:?} in exact-size boxes, model {:?}", a, b, got, want));
+        }
+    }
+}
